@@ -10,6 +10,7 @@
 (*   am    : Seq(Int) (kind "am": Grid.antimeridian_face_indices)          *)
 (*   crs_ok: the CRS the object declares is the requested one              *)
 (*   closed: Seq(BOOLEAN) (kind "line": line j ends where it starts)       *)
+(*   pc, pk, nanmode, nodenan, nn: partial projections (see HasNan)        *)
 (*   frame_ok: (kind "gdf") the frame's class belongs to the requested     *)
 (*           engine's package                                              *)
 (* Verdict: <<"V", id, failed clause names, facts>>; records on which the  *)
@@ -27,11 +28,17 @@ Has(r, f) == f \in DOMAIN r
 Mesh(r)   == [ nodes |-> r.nodes, faces |-> r.faces ]
 Tracer(f) == 1000 + f
 
+\* the record comes from a projection that shows only part of the sphere: pc = centre direction, pk = kind,
+\* nanmode = "drop" (polygons with a NaN vertex are left out) or "keep" (exclude_nan_polygons=False),
+\* nodenan = cartopy's NaN pattern per node, nn = the returned non_nan_polygon_indices (optional)
+HasNan(r) == Has(r, "pc")
 Unjudged(r) ==
     LET m == Mesh(r) IN
     IF ~SgnWellFormed(m, r.k, r.sgn) THEN "bad-sign-input"
     ELSE IF \E f \in FaceIds(m) : CornerAtPole(FaceDirs(m, f)) THEN "pole-corner"
     ELSE IF TieSet(m, r.k, r.sgn) # {} THEN "tie"
+    ELSE IF HasNan(r) /\ ~OracleAgrees(m, r.pc, r.pk, r.nodenan) THEN "oracle-mismatch"
+    ELSE IF HasNan(r) /\ \E f \in FaceIds(m) : FaceVis(m, f, r.pc, r.pk) = "unclear" THEN "limb"
     ELSE "judged"
 
 \* ---- which face is row j (exclude / ignore / gdf split), or group of rows of face f
@@ -40,6 +47,14 @@ NExpected(r)  == IF r.pe = "exclude" THEN Len(Kept(Mesh(r), r.k, r.sgn)) ELSE NF
 \* the same with the kept list computed once (kp)
 RowFaceK(r, kp, j) == IF r.pe = "exclude" THEN kp[j] ELSE j - 1
 NExpectedK(r, kp)  == IF r.pe = "exclude" THEN Len(kp) ELSE NF(Mesh(r))
+
+\* ---- with a partial projection: Base = the faces before NaN filtering, Expected = the rows that must be there
+AllFaces(m)   == [ j \in 1..NF(m) |-> j - 1 ]
+BaseSeq(r, kp) == IF r.pe = "exclude" THEN kp ELSE AllFaces(Mesh(r))
+Vis(r, f)     == ~HasNan(r) \/ FaceVis(Mesh(r), f, r.pc, r.pk) = "vis"
+ExpSeq(r, kp) == IF HasNan(r) /\ r.nanmode = "drop" THEN SelectSeq(BaseSeq(r, kp), LAMBDA f : Vis(r, f)) ELSE BaseSeq(r, kp)
+\* 0-based positions, in Base, of the polygons without NaN
+NnExpected(r, kp) == LET b == BaseSeq(r, kp) IN SelectSeq([ j \in 1..Len(b) |-> j - 1 ], LAMBDA j : Vis(r, b[j + 1]))
 
 \* all pieces exported for face f under 'split'
 PiecesOf(r, f) ==
@@ -75,7 +90,9 @@ Clauses(r) ==
       geo == r.kind \in {"gdf", "poly", "line"}
       split == r.pe = "split"
       kp == Kept(m, k, sg)
-      rowsOK == Len(r.rows) = NExpectedK(r, kp)
+      ex == ExpSeq(r, kp)
+      rowsOK == Len(r.rows) = Len(ex)
+      judged(j) == Vis(r, ex[j])          \* rows of hidden faces kept on request carry NaN and are not compared
       ownOK == IF r.kind = "gdf" THEN Len(r.rows) = NF(m) ELSE OwnerShapeOK(r)
   IN
   [ AmIndices      |-> r.kind = "am" =>
@@ -83,13 +100,17 @@ Clauses(r) ==
                           /\ { r.am[j] : j \in 1..Len(r.am) } = CrossSet(m, k, sg),
     \* the frame is one of the requested engine
     FrameOfEngine  |-> (r.kind = "gdf" /\ Has(r, "frame_ok")) => r.frame_ok,
+    \* the record was obtained through a plotting accessor, which passed on exactly the requested arguments
+    AccessorArguments |-> Has(r, "args_ok") => r.args_ok,
     DeclaredCRS    |-> (geo /\ Has(r, "crs_ok")) => r.crs_ok,
-    VerticesAreCorners |-> geo => \A j \in 1..Len(r.rows) : \A q \in 1..Len(r.rows[j]) : AllMatched(r.rows[j][q]),
+    VerticesAreCorners |-> geo => \A j \in 1..Len(r.rows) : ((split \/ ~rowsOK \/ judged(j)) => \A q \in 1..Len(r.rows[j]) : AllMatched(r.rows[j][q])),
+    \* partial projections: the returned non_nan_polygon_indices are the positions of the visible polygons
+    NonNanTable    |-> (geo /\ ~split /\ Has(r, "nn")) => r.nn = NnExpected(r, kp),
     \* exclude: dropped set = crossing set, polygon j <-> j-th non-crossing face; ignore: polygon i <-> face i
     RowCount       |-> (geo /\ ~split) => rowsOK,
     OnePiecePerRow |-> (geo /\ ~split) => \A j \in 1..Len(r.rows) : Len(r.rows[j]) = 1,
     RingIsFace     |-> (geo /\ ~split /\ rowsOK) =>
-                          \A j \in 1..Len(r.rows) : Len(r.rows[j]) >= 1 /\ RingIsFace(m, r.rows[j][1], RowFaceK(r, kp, j)),
+                          \A j \in 1..Len(r.rows) : judged(j) => (Len(r.rows[j]) >= 1 /\ RingIsFace(m, r.rows[j][1], ex[j])),
     \* every exported line is a closed ring (closed[j]: first and last coordinates of line j coincide)
     LineClosed     |-> r.kind = "line" => /\ \A j \in 1..Len(r.rows) : \A q \in 1..Len(r.rows[j]) : ClosedRing(r.rows[j][q])
                                           /\ Has(r, "closed") => (Len(r.closed) = Len(r.rows) /\ \A j \in 1..Len(r.closed) : r.closed[j]),
@@ -108,7 +129,7 @@ Clauses(r) ==
     \* data
     DataLength     |-> (geo /\ Has(r, "data")) => Len(r.data) = Len(r.rows),
     DataFollowsFaces |-> (geo /\ Has(r, "data") /\ Len(r.data) = Len(r.rows)) =>
-                          IF ~split THEN (rowsOK => \A j \in 1..Len(r.rows) : r.data[j] = Tracer(RowFaceK(r, kp, j)))
+                          IF ~split THEN (rowsOK => \A j \in 1..Len(r.rows) : r.data[j] = Tracer(ex[j]))
                           ELSE IF r.kind = "gdf" THEN (Len(r.rows) = NF(m) => \A j \in 1..Len(r.rows) : r.data[j] = Tracer(j - 1))
                           ELSE (Has(r, "owner") /\ OwnerShapeOK(r)) => \A j \in 1..Len(r.rows) : r.data[j] = Tracer(r.owner[j])
   ]
@@ -136,7 +157,7 @@ DataTruncated(r) == /\ r.pe = "ignore" /\ Has(r, "data") /\ NKept(r) < NF(Mesh(r
 \* vertices are the corners in (seam-shifted) lon/lat although the object declares the projection
 Unprojected(r) == /\ Has(r, "rows_ll") /\ Len(r.rows_ll) = NExpected(r)
                   /\ \A j \in 1..Len(r.rows_ll) : RowIs(r, r.rows_ll, j, RowFace(r, j))
-Pattern(r) == IF r.kind = "am" THEN "none"
+Pattern(r) == IF r.kind = "am" \/ HasNan(r) THEN "none"
               ELSE IF Unprojected(r) THEN (IF DataTruncated(r) THEN "unprojected+data_truncated" ELSE "unprojected")
               ELSE IF r.pe # "split" /\ Doubled(r) THEN "doubled"
               ELSE IF Truncated(r) THEN "truncated"
@@ -144,6 +165,7 @@ Pattern(r) == IF r.kind = "am" THEN "none"
               ELSE "none"
 Facts(r)  == [ crossers |-> Cardinality(CrossSet(Mesh(r), r.k, r.sgn)),
                polein   |-> Cardinality(PoleInSet(Mesh(r)) \cap CrossSet(Mesh(r), r.k, r.sgn)),
+               partial  |-> HasNan(r),
                pattern  |-> Pattern(r) ]
 
 Init == i \in { -b : b \in 1..NBlocks }
